@@ -27,9 +27,47 @@ def make_data(rng, metric, n, d):
     return X
 
 
+def check_init_update(ctx):
+    """init_update (numba) vs the Lean model on random tables, incl. new rows without any original neighbour"""
+    import umap.umap_ as U
+    from common import Driver, f2b, b2f
+    rng = ctx.rng
+    drv = Driver()
+    pend = []
+    for t in range(200 if ctx.thorough else 30):
+        n_orig = int(rng.integers(1, 8))
+        n_new = int(rng.integers(1, 6))
+        dim = int(rng.integers(1, 4))
+        k = int(rng.integers(1, 6))
+        n = n_orig + n_new
+        init = np.zeros((n, dim), dtype=np.float32)
+        init[:n_orig] = rng.integers(-8, 9, size=(n_orig, dim)).astype(np.float32)      # exactly representable
+        idx = rng.integers(0, n, size=(n, k)).astype(np.int64)
+        if t % 3 == 0:
+            idx[n_orig:] = rng.integers(n_orig, n, size=(n_new, k))                     # no original neighbour at all
+        cur = init.copy()
+        case = {"n_original": n_orig, "init": init.tolist(), "indices": idx.tolist()}
+        try:
+            U.init_update(cur, n_orig, idx)
+        except Exception as e:  # noqa
+            ctx.violation("init-update", f"init_update raised {type(e).__name__}", case)
+            continue
+        if not np.all(np.isfinite(cur)):
+            ctx.violation("init-update", "init_update produced a non-finite initial position", case)
+        toks = ["initupdate", n_orig, dim, n, k] + [f2b(v) for v in init.ravel()] + [int(v) for v in idx.ravel()]
+        pend.append((drv.add(*toks), cur[n_orig:].copy(), case))
+        ctx.case(key="iu" + str(case), nontrivial=False, part="init_update")
+    outs = drv.run()
+    for h, got, case in pend:
+        model = np.array([b2f(x) for x in outs[h].split()]).reshape(got.shape) if outs[h].strip() else np.zeros(got.shape)
+        if np.max(np.abs(model - got.astype(np.float64))) > 1e-5 * max(1.0, float(np.max(np.abs(got)))):
+            ctx.mismatch("init_update", {"impl": got.tolist(), "model": model.tolist()}, case)
+
+
 def run(ctx):
     import umap
     rng = ctx.rng
+    check_init_update(ctx)
     ctx.rule = ("datasets (n<300) split into an initial part and 1..3 update batches x metrics {euclidean, manhattan, cosine, jaccard, "
                 "hellinger, euclidean with a user disconnection_distance} x batch placement {near, far cluster, duplicates of old samples}; "
                 "graph after update(s) vs graph of a fresh fit on the stacked data (entrywise, tolerance 0), embedding shape / finiteness of "
